@@ -605,6 +605,85 @@ func c03Renegotiate(first, second uint32, dotu bool) Scenario {
 	}}
 }
 
+// c03TwoMsizes: two connections of one server negotiate different msizes and are used
+// in turn; each gets exactly what the implementation produced, whatever the other
+// connection's limits are.
+func c03TwoMsizes(small, large uint32, dotu bool) Scenario {
+	name := fmt.Sprintf("replies-on-two-connections msize %d and %d dotu=%v", small, large, dotu)
+	return Scenario{Name: name, Run: func(rc *RunCtx) *Result {
+		res := &Result{Exhaustive: true}
+		var bad string
+		body := func() {
+			fs := NewFS()
+			h := NewSrvH(fs, SrvOpt{Msize: 65560, Dotu: dotu, Maxpend: 1})
+			ver := "9P2000"
+			if dotu {
+				ver = "9P2000.u"
+			}
+			cs := []*Cli{h.Connect(), h.Connect()}
+			ms := []uint32{small, large}
+			tag := uint16(0)
+			for i, c := range cs {
+				if r := c.Version(ms[i], ver); r == nil || r.Type != wire.Rversion {
+					bad = fmt.Sprintf("Tversion(%d) answered by %v", ms[i], r)
+					return
+				}
+				for _, m := range []*wire.Msg{tattach(0, 0, wire.NOFID, "glenda", 7, dotu), twalk(0, 0, 1, "f"), {Type: wire.Topen, Fid: 1, Mode: 0}} {
+					tag++
+					m.Tag = tag
+					c.Rpc(m)
+				}
+			}
+			// alternate: bursts on the small connection (its buffers go back to wherever they are kept), large replies on the other
+			for round := 0; round < 3; round++ {
+				for i, c := range cs {
+					var burst []*wire.Msg
+					for k := 0; k < 5; k++ {
+						tag++
+						burst = append(burst, &wire.Msg{Type: wire.Tstat, Tag: tag, Fid: 0})
+					}
+					c.Send(dotu, burst...)
+					vs.Idle()
+					for _, cnt := range []uint32{1, small - 24, ms[i] - 24} {
+						tag++
+						fs.Script[reqKey{i, tag, 0}] = &Action{ReadFull: true}
+						before := len(c.Collect())
+						c.Send(dotu, &wire.Msg{Type: wire.Tread, Tag: tag, Fid: 1, Offset: 1, Count: cnt})
+						vs.Idle()
+						res.Evals++
+						fr := c.Collect()[before:]
+						if len(fr) != 1 || fr[0].Msg == nil || fr[0].Msg.Tag != tag {
+							bad = fmt.Sprintf("connection %d (msize %d), Tread count %d: %d replies", i, ms[i], cnt, len(fr))
+							return
+						}
+						resps := fs.resps(i, tag, 0)
+						if len(resps) == 0 {
+							continue
+						}
+						if got := renderReply(fr[0].Msg); got != resps[0].Reply {
+							bad = fmt.Sprintf("connection %d (msize %d) next to a connection with msize %d: Tread count %d was forwarded and the implementation produced %q, the reply on the wire is %q", i, ms[i], ms[1-i], cnt, resps[0].Reply, got)
+							return
+						}
+					}
+				}
+			}
+		}
+		x := vs.Run(nil, body, vs.Options{})
+		res.Nontrivial = res.Evals
+		res.Traces = 1
+		if len(x.Panics) > 0 {
+			bad = "panic: " + x.Panics[0].Value
+		} else if len(x.Fails) > 0 && bad == "" {
+			bad = "harness: " + x.Fails[0]
+		}
+		if bad != "" {
+			res.Findings = append(res.Findings, Finding{Sig: "C03/wrong-content/two-connections/" + sigWords(bad), Msg: name + ": " + bad})
+		}
+		res.Samples = append(res.Samples, "two connections of one server with different msize used in turn: bursts of Tstat and reads of 3 size classes, 3 rounds")
+		return res
+	}}
+}
+
 func gatedOf(scripts ...string) []int {
 	var g []int
 	for i, sc := range scripts {
@@ -634,6 +713,7 @@ func c03Scenarios(tier string) []Scenario {
 	for i, pr := range [][2]uint32{{64, 1024}, {128, 8216}, {1024, 64}, {256, 256}} {
 		out = append(out, c03Renegotiate(pr[0], pr[1], i%2 == 0))
 	}
+	out = append(out, c03TwoMsizes(64, 8216, true), c03TwoMsizes(256, 65560, false), c03TwoMsizes(4096, 128, true))
 	add := func(reqs []reqSpec, maxpend int, dotu, oneseg bool, P int) {
 		var gated []int
 		for i, r := range reqs {
@@ -711,7 +791,7 @@ func c03Scenarios(tier string) []Scenario {
 func init() {
 	register(&Property{ID: "C03", Level: "model_checking",
 		Technique: "stateless model checking of the real server under a controlled scheduler (all schedules within a preemption bound)",
-		Rule:      "every schedule with at most P preemptions (P iterated 0..bound, select-case choices free) of server recv/worker/send goroutines + scripted implementation + releaser, per scenario (request kinds x scripts x release order x Maxpend x dialect x segmentation; late answers of cancelled requests; a reactive client re-using a tag the moment its reply is read, with and without a Tflush of the second use and a third use after the Rflush; sessions renegotiated to a larger / smaller msize with reads of every size class); distinct = distinct per-object operation orders (trace hash)",
+		Rule:      "every schedule with at most P preemptions (P iterated 0..bound, select-case choices free) of server recv/worker/send goroutines + scripted implementation + releaser, per scenario (request kinds x scripts x release order x Maxpend x dialect x segmentation; late answers of cancelled requests; a reactive client re-using a tag the moment its reply is read, with and without a Tflush of the second use and a third use after the Rflush; sessions renegotiated to a larger / smaller msize with reads of every size class; two connections of one server with different msize used in turn); distinct = distinct per-object operation orders (trace hash)",
 		Assumptions: []string{"code between two synchronisation operations is atomic (sound for race-free executions; C19 checks race freedom)", "transport modelled as an unbounded reliable byte queue", "map iteration fixed to ascending key order"},
 		Scenarios:   c03Scenarios, QuickS: 180, ThoroughS: 1500})
 }
